@@ -308,6 +308,6 @@ func init() {
 		Real:       realFullStack,
 		Stub:       stubFullStack,
 		FaultKinds: []string{"malformed_input"},
-		RunsQuick:  4000, RunsThorough: 150000,
+		RunsQuick:  4000, RunsThorough: 80000,
 	})
 }
